@@ -160,6 +160,9 @@ pub struct RecStream {
     pub script: Script,
     pub gate: Option<Arc<Gate>>,
     pub flush_calls: u64,
+    /// called at the start of every `next` / `flush` / drop: lets the scheduled runs observe, in log order,
+    /// flush requests that completed *before* this stream call (a wake-up must never precede its flush)
+    pub before_call: Option<Arc<dyn Fn() + Send + Sync>>,
 }
 
 fn to_result(r: u8) -> Result<(), IoStreamError> {
@@ -174,6 +177,9 @@ impl EntryIoStream for RecStream {
     fn next(&mut self, entry: &impl Entry) -> Result<(), IoStreamError> {
         if let Some(g) = &self.gate {
             g.pass();
+        }
+        if let Some(h) = &self.before_call {
+            h();
         }
         let mut p = Probe::default();
         entry.write(&mut p);
@@ -190,6 +196,9 @@ impl EntryIoStream for RecStream {
     }
 
     fn flush(&mut self) -> std::io::Result<()> {
+        if let Some(h) = &self.before_call {
+            h();
+        }
         let k = self.flush_calls;
         self.flush_calls += 1;
         let ok = !self.script.failing_flushes.contains(&k);
@@ -200,6 +209,9 @@ impl EntryIoStream for RecStream {
 
 impl Drop for RecStream {
     fn drop(&mut self) {
+        if let Some(h) = &self.before_call {
+            h();
+        }
         self.log.lock().unwrap().push(Ev::DropStream);
     }
 }
